@@ -1280,6 +1280,26 @@ var verifTreeGlobSets = [][]string{
 	{"snap.foo.*.png", "snap.foo.*.svg"},
 }
 
+// verifOrderVariant gives the insertion order used for the k-th execution of
+// a round: rotations of the base order, every other one reversed. With the
+// Go runtime used here a map of up to 8 entries iterates in a rotation of its
+// insertion order, most often the identity, so this makes the executions of
+// a round start snapd's loop at different files. Nothing but the chance of
+// seeing an order dependent failure relies on that.
+func verifOrderVariant(base []string, k int) []string {
+	n := len(base)
+	out := make([]string, n)
+	for i := range base {
+		out[i] = base[(i+k/2)%n]
+	}
+	if k%2 == 1 {
+		for i, j := 0, n-1; i < j; i, j = i+1, j-1 {
+			out[i], out[j] = out[j], out[i]
+		}
+	}
+	return out
+}
+
 // verifExecutions is how often a failing round is executed at most (from the
 // same restored initial state) while no execution violates the property:
 // the position of the failing file in snapd's loop over the content map is
@@ -1333,7 +1353,7 @@ func verifRunC23(c *verifsim.Ctx) {
 }
 
 // execute performs the call of one round once. call gets the fresh states.
-func (w *verifWorld) execute(tmpl *verifRound, reuse *verifSnap, call func(r *verifRound)) *verifRound {
+func (w *verifWorld) execute(tmpl *verifRound, reuse *verifSnap, k int, call func(r *verifRound, k int)) *verifRound {
 	r := &verifRound{wants: tmpl.wants, immutDir: tmpl.immutDir, immutPaths: tmpl.immutPaths, contentDirs: tmpl.contentDirs, states: map[string]*verifState{}}
 	for _, rel := range verifSortedWants(r.wants) {
 		r.states[rel] = w.newState(r.wants[rel])
@@ -1353,7 +1373,7 @@ func (w *verifWorld) execute(tmpl *verifRound, reuse *verifSnap, call func(r *ve
 	if r.immutDir {
 		w.setImmutable(w.dir)
 	}
-	call(r)
+	call(r, k)
 	w.clearImmutable()
 	r.after = snap()
 	r.outAfter = verifStatSig(w.outside) + verifStatSig(w.src)
@@ -1362,13 +1382,13 @@ func (w *verifWorld) execute(tmpl *verifRound, reuse *verifSnap, call func(r *ve
 
 // runRound executes one round, repeats it while it fails without a violation
 // (see verifExecutions), logs and applies the verdict.
-func (w *verifWorld) runRound(round int, tmpl *verifRound, entries int, call func(r *verifRound)) {
+func (w *verifWorld) runRound(round int, tmpl *verifRound, entries int, call func(r *verifRound, k int)) {
 	c := w.c
 	tmpl.immutPaths = map[string]bool{}
 	for rel := range w.immutPlan {
 		tmpl.immutPaths[rel] = true
 	}
-	r := w.execute(tmpl, nil, call)
+	r := w.execute(tmpl, nil, 0, call)
 	c.Logf("round %d: before=%s immutable-dir=%v", round, r.before, r.immutDir)
 	for _, rel := range verifSortedWants(r.wants) {
 		c.Logf("  want %s: %s", verifShort(rel), r.wants[rel])
@@ -1382,7 +1402,7 @@ func (w *verifWorld) runRound(round int, tmpl *verifRound, entries int, call fun
 			if k > 1 {
 				reuse = first.before // (the first restore of a round is verified)
 			}
-			r2 := w.execute(tmpl, reuse, call)
+			r2 := w.execute(tmpl, reuse, k, call)
 			c.Count("executions:repeated")
 			if r2.before.String() != first.before.String() {
 				c.Fatalf("restore does not reproduce the initial state: %s vs %s", r2.before, first.before)
@@ -1543,9 +1563,9 @@ func verifRunDir(w *verifWorld) {
 		if w.obstacles && verifImmutableOK && !w.dirGone && c.Draw("immutable-dir", 24) == 23 {
 			tmpl.immutDir = true
 		}
-		w.runRound(round, tmpl, len(order), func(r *verifRound) {
+		w.runRound(round, tmpl, len(order), func(r *verifRound, k int) {
 			content := map[string]osutil.FileState{}
-			for _, n := range order {
+			for _, n := range verifOrderVariant(order, k) {
 				content[n] = r.states[n]
 			}
 			if useSingle {
@@ -1625,12 +1645,12 @@ func verifRunTree(w *verifWorld) {
 		}
 		tmpl := &verifRound{wants: wants, contentDirs: verifSortedBool(contentDirs)}
 		c.Logf("round %d: content-dirs=%v", round, tmpl.contentDirs)
-		w.runRound(round, tmpl, 2, func(r *verifRound) {
+		w.runRound(round, tmpl, 2, func(r *verifRound, k int) {
 			content := map[string]map[string]osutil.FileState{}
-			for _, d := range r.contentDirs {
+			for _, d := range verifOrderVariant(r.contentDirs, k) {
 				content[d] = map[string]osutil.FileState{}
 			}
-			for _, rel := range verifSortedWants(r.wants) {
+			for _, rel := range verifOrderVariant(verifSortedWants(r.wants), k) {
 				content[filepath.Dir(rel)][filepath.Base(rel)] = r.states[rel]
 			}
 			r.changed, r.removed, r.err = osutil.EnsureTreeState(w.dir, w.globs, content)
